@@ -1,1 +1,37 @@
-// harnesses for unit time_until (mounted under cfg(kani) by the hook in /repo)
+//! K3 — `TimeUntil for Instant` and MAX_TIMER_DELAY (tarpc/src/util.rs).
+//! Mounted as `crate::util::verif_kani` under cfg(kani).
+use super::{TimeUntil, MAX_TIMER_DELAY};
+use crate::verif_kani_support::*;
+use std::time::Duration;
+
+/// C05/C06/C07: time_until(d) is the saturating difference d - now, total (no panic) for all
+/// instants (A-clock: 0 <= secs < 2^40). Loop-free, full domain.
+#[kani::proof]
+#[kani::stub(std::time::Instant::now, crate::verif_kani_support::fake_now)]
+#[kani::unwind(3)] // std's Timespec::sub_timespec recurses once (swapped operands); unwinding assertion stays on
+fn k3_time_until_is_saturating_difference() {
+    let now = any_instant();
+    let d = any_instant();
+    set_now(now);
+    let r = d.time_until();
+    kani::cover!(gt(d, now), "reachable: deadline in the future");
+    kani::cover!(gt(now, d), "reachable: deadline already passed");
+    if ge(d, now) {
+        assert!(dur_parts(r) == diff(d, now), "C05: time_until == deadline - now");
+    } else {
+        assert!(r == Duration::ZERO, "C05/C07: a passed deadline gives zero, not an error");
+    }
+}
+
+/// C16: the clamp constant used for deadline timers is exactly the value the Verus model
+/// (prelude/time.rs) assumes, and lies within tokio-util's DelayQueue range (2^36 - 1 ms).
+#[kani::proof]
+fn k3_max_timer_delay_value() {
+    assert!(MAX_TIMER_DELAY.as_secs() == 31_536_000 && MAX_TIMER_DELAY.subsec_nanos() == 0, "model constant == real constant (31_536_000_000 ms)");
+    assert!(MAX_TIMER_DELAY.as_secs() < ((1u64 << 36) - 1) / 1000, "C16: within DelayQueue range (2^36 - 1 ms)");
+    // and Duration::min really is the minimum (what `.min(MAX_TIMER_DELAY)` relies on)
+    let d = any_duration();
+    let m = d.min(MAX_TIMER_DELAY);
+    assert!(m <= MAX_TIMER_DELAY && m <= d && (m == d || m == MAX_TIMER_DELAY), "C16: clamped delay never exceeds the range");
+}
+
